@@ -79,3 +79,8 @@ CURVE_BITS = {"Sect163k1": 163, "Sect163r1": 163, "Sect163r2": 163, "Sect193r1":
 # groups whose name states no bit size but for which the crate reports one: accepted values
 CURVE_BITS_UNNAMED = {"EcdhX25519": 253}
 # types whose Display prints constant names ("impl display" / "impl debug" newtype enums)
+
+# registry types whose Debug output prints the constant names (newtype_enum! `impl debug`): the property's
+# "Display/Debug text (for the types that print names)" - Debug of these must format through Display
+DEBUG_PRINTS_NAMES = ["tls_record::TlsRecordType", "tls_handshake::TlsHandshakeType", "tls_handshake::TlsVersion", "tls_handshake::TlsHeartbeatMessageType",
+                      "tls_handshake::TlsCompressionID", "tls_ec::NamedGroup", "tls_extensions::CertificateStatusType"]
